@@ -31,7 +31,7 @@ var c09Hists = [][]string{
 	{"git", "git commit", "git commit -m", "gi"},
 	{"a\nb\nc", "single", "x\ny"},
 	{"Echo Upper", "echo lower", "ECHO ALL", "print"},
-	{"foo(bar)", "foo[1]", "a.b", "a+b", "(("},
+	{"foo(bar)", "foo[1]", "a.b", "a+b", "((", "axb", "aab", "ab"},
 	{"wörld", "世界 hello", "hello world"},
 }
 
@@ -71,7 +71,7 @@ func c09Gen(r *rand.Rand, tier string, idx int) any {
 			c.Ops = append(c.Ops, pick(r, ops))
 		}
 	case "prefix", "substring":
-		c.T = pick(r, []string{"", "g", "gi", "git", "git c", "echo", "e", "o", "zzz", "a", "same", "(", "hello", "wö"})
+		c.T = pick(r, []string{"", "g", "gi", "git", "git c", "echo", "e", "o", "zzz", "a", "same", "(", "hello", "wö", "a.b", "a+b", ".", "foo[", "a*b", "^a", "b$", "\\"})
 		if len(c.T) > 1 && r.Intn(3) == 0 {
 			c.Back = 1 + r.Intn(len([]rune(c.T))-1)
 		}
